@@ -373,7 +373,12 @@ def handleMatVS (F : Codec K) (op : String) (toks : List String) : String :=
       | "mltimes" => if isFM A then showMat F (mltimes s a) else "bad-op"
       | "mover" =>
         if !isFM A then "bad-op" else if !allDivOk F A.e s then "inexact" else showMat F (mover a s)
-      | "mneg" => if diag || A.base == "SV" then "bad-op" else showMat F (mneg a)
+      | "mneg" =>
+        if diag then "bad-op"
+        else
+          -- unary minus of a scalar view: the result and what the viewed scalar holds afterwards
+          let r := negObj Gen.mnegResult (A.base == "SV") a
+          if A.base == "SV" then showMat F r.1 ++ " stored=" ++ encList F [r.2.e 0 0] else showMat F r.1
       | _ => "bad-op"
 
 def ordVV : List String := ["v1_lt_v1", "v1_le_v1", "v1_gt_v1", "v1_ge_v1"]
@@ -436,7 +441,12 @@ def handleVec (F : Codec K) (op : String) (toks : List String) : String :=
           | none => "bad-op"
         else "bad-op"
     | none =>
-      if a.kind == "SC" then "bad-op" else
+      if a.kind == "SC" then
+        -- unary minus of the view asVector(s): the result and what the scalar holds afterwards
+        (if op != "vneg" || n != 1 then "bad-op" else
+         let r := negObj Gen.vnegResult true (⟨1, 1, fun _ j => x j⟩ : Mat K)
+         encList F [r.1.e 0 0] ++ " stored=" ++ encList F [r.2.e 0 0])
+      else
       let fv := a.kind == "FV"
       let one := fv && n == 1
       match op with
@@ -445,17 +455,17 @@ def handleVec (F : Codec K) (op : String) (toks : List String) : String :=
       | "vsubs" => out (vMinusAssignScalar xv s).get
       | "vscale" => out (vTimesAssign xv s).get
       | "vdiv" => if !allDivOk F a.e s then "inexact" else out (vDivAssign xv s).get
-      | "vtimes" => if fv then out (vscale x s) else "bad-op"
-      | "vltimes" => if fv then out (vscaleL s x) else "bad-op"
-      | "vover" => if !allDivOk F a.e s then "inexact" else if fv then out (vdiv x s) else "bad-op"
+      | "vtimes" => if fv then out (vscale n x s) else "bad-op"
+      | "vltimes" => if fv then out (vscaleL n s x) else "bad-op"
+      | "vover" => if !allDivOk F a.e s then "inexact" else if fv then out (vdiv n x s) else "bad-op"
       -- fvector.hh, FieldVector<K,1> mixed with plain scalars: `a[0]+b`, `a+b[0]`, ...
       | "v1_plus_s" => if one then out (fun _ => x 0 + s) else "bad-op"
       | "s_plus_v1" => if one then out (fun _ => s + x 0) else "bad-op"
       | "v1_minus_s" => if one then out (fun _ => x 0 - s) else "bad-op"
       | "s_minus_v1" => if one then out (fun _ => s - x 0) else "bad-op"
-      | "v1_times_s" => if one then out (vscale x s) else "bad-op"
-      | "s_times_v1" => if one then out (vscaleL s x) else "bad-op"
-      | "v1_over_s" => if !allDivOk F a.e s then "inexact" else if one then out (vdiv x s) else "bad-op"
+      | "v1_times_s" => if one then out (fun i => x i * s) else "bad-op"
+      | "s_times_v1" => if one then out (fun i => s * x i) else "bad-op"
+      | "v1_over_s" => if !allDivOk F a.e s then "inexact" else if one then out (fun i => x i / s) else "bad-op"
       | "s_over_v1" =>
         if !(a.e.all fun v => F.divOk s v) then "inexact" else if one then out (fun i => s / x i) else "bad-op"
       | "v1_eq_s" => if one then showB (veq 1 x (fun _ => s)) else "bad-op"
